@@ -290,6 +290,17 @@ struct Universe final : IUniverse {
                 break;
             }
         }
+        if (route == 2 || route == 3) {
+            // a NAMED callable handed to subscribe() is copied, never moved from: the caller's object stays usable (it may be
+            // subscribed again).  A probe functor with move-sensitive state goes to a scratch Subject of the same type in the same
+            // form (plain / with SelfView) and is inspected afterwards.
+            static const std::string kTag = "lvalue-callable-state-0123456789abcdefghijklmnopqrstuvwxyz";
+            struct ProbePlain { std::string tag; void operator()(Args...) const {} };
+            struct ProbeSelf { std::string tag; void operator()(SelfView, Args...) const {} };
+            Subj scratch;
+            if (route == 2) { ProbePlain p{kTag}; auto hs = scratch.subscribe(p); if (p.tag != kTag) rec().fail("LVALUE_CALLABLE_MOVED_FROM"); }
+            else { ProbeSelf p{kTag}; auto hs = scratch.subscribe(p); if (p.tag != kTag) rec().fail("LVALUE_CALLABLE_MOVED_FROM"); }
+        }
         guard.reset();
         info->id = h.getId();
         info->observer = h.getObserver();
